@@ -1946,8 +1946,10 @@ class ContractionTree:
             if progbar:
                 pbar.close()
 
-        # invalidate any compiled contractions
-        tree.contraction_cores.clear()
+        # invalidate any compiled contractions, as well as the explicit index
+        # orderings, which for unchanged nodes above a reconfigured subtree
+        # might refer to a now different ordering of the subtree's indices
+        tree.reset_contraction_indices()
 
         return tree
 
